@@ -138,63 +138,38 @@ theorem step_good (s : Db V P) (op : Op V P) (hs : s.Good) : (s.step op).1.Good 
   | addAccessory aid cb defs => exact addAccessory_good s aid cb defs hs
   | removeAccessory aid => exact removeAccessory_good s aid hs
   | assign aid o =>
-    simp only [Db.step]
-    have key := onAcc_good s s.nextObj s.nextObj aid
-      (fun a => some ({ a with iidm := a.iidm.assign o }, Res.ok none))
-      (fun a => { a with iidm := a.iidm.assign o }) hs (Nat.le_refl _)
-      (fun ka _ _ => ⟨_, rfl⟩)
+    rw [step_assign]
+    have hf : ∀ ka ∈ s.assoc, ka.1 = aid → ∃ r, fAssign o ka.2 = some (FAssign o ka.2, r) :=
+      fun ka _ _ => let ⟨r, e, _⟩ := fAssign_eq o ka.2; ⟨r, e⟩
+    have key := onAcc_good s s.nextObj s.nextObj aid (fAssign o) (FAssign o) hs (Nat.le_refl _) hf
       (fun ka hka _ => by
-        obtain ⟨a1, a2, a3, a4⟩ := hs.accs ka hka
-        exact ⟨⟨a1, Iid.good_assign a2 o, a3, a4⟩, fun x hx => Or.inl hx⟩)
-    have e := (onAcc_assoc s s.nextObj aid
-      (fun a => some ({ a with iidm := a.iidm.assign o }, Res.ok none))
-      (fun a => { a with iidm := a.iidm.assign o }) hs (fun ka _ _ => ⟨Res.ok none, rfl⟩)).2.2
+        obtain ⟨g, e⟩ := FAssign_good o (hs.accs ka hka)
+        exact ⟨g, fun x hx => Or.inl (by rw [e] at hx; exact hx)⟩)
+    have e := (onAcc_assoc s s.nextObj aid (fAssign o) (FAssign o) hs hf).2.2
     unfold Db.Good
     rw [e]
     exact key
   | removeObj aid o =>
-    simp only [Db.step]
-    have hf : ∀ ka ∈ s.assoc, ka.1 = aid → ∃ r,
-        (ka.2.iidm.removeObj o).map (fun mr => (({ ka.2 with iidm := mr.1 } : Accessory V P), Res.ok mr.2))
-          = some (({ ka.2 with iidm := ((ka.2.iidm.removeObj o).map (·.1)).getD ka.2.iidm } : Accessory V P), r) := by
-      intro ka hka _
-      obtain ⟨m', r, e, _⟩ := Iid.removeObj_good (hs.accs ka hka).2.1 o
-      exact ⟨Res.ok r, by rw [e]; rfl⟩
-    have key := onAcc_good s s.nextObj s.nextObj aid
-      (fun a => (a.iidm.removeObj o).map (fun mr => ({ a with iidm := mr.1 }, Res.ok mr.2)))
-      (fun a => { a with iidm := ((a.iidm.removeObj o).map (·.1)).getD a.iidm }) hs (Nat.le_refl _) hf
+    rw [step_removeObj]
+    have hf : ∀ ka ∈ s.assoc, ka.1 = aid → ∃ r, fRemoveObj o ka.2 = some (FRemoveObj o ka.2, r) :=
+      fun ka hka _ => let ⟨r, e, _⟩ := fRemoveObj_eq o ka.2 (hs.accs ka hka).2.1; ⟨r, e⟩
+    have key := onAcc_good s s.nextObj s.nextObj aid (fRemoveObj o) (FRemoveObj o) hs (Nat.le_refl _) hf
       (fun ka hka _ => by
-        obtain ⟨a1, a2, a3, a4⟩ := hs.accs ka hka
-        obtain ⟨m', r, e, g, _⟩ := Iid.removeObj_good a2 o
-        refine ⟨⟨a1, ?_, a3, a4⟩, fun x hx => Or.inl hx⟩
-        show Iid.Good (((ka.2.iidm.removeObj o).map (·.1)).getD ka.2.iidm)
-        rw [e]; exact g)
-    have e := (onAcc_assoc s s.nextObj aid
-      (fun a => (a.iidm.removeObj o).map (fun mr => ({ a with iidm := mr.1 }, Res.ok mr.2)))
-      (fun a => { a with iidm := ((a.iidm.removeObj o).map (·.1)).getD a.iidm }) hs hf).2.2
+        obtain ⟨g, e⟩ := FRemoveObj_good o (hs.accs ka hka)
+        exact ⟨g, fun x hx => Or.inl (by rw [e] at hx; exact hx)⟩)
+    have e := (onAcc_assoc s s.nextObj aid (fRemoveObj o) (FRemoveObj o) hs hf).2.2
     unfold Db.Good
     rw [e]
     exact key
   | removeIid aid i =>
-    simp only [Db.step]
-    have hf : ∀ ka ∈ s.assoc, ka.1 = aid → ∃ r,
-        (ka.2.iidm.removeIid i).map (fun mr => (({ ka.2 with iidm := mr.1 } : Accessory V P), Res.ok mr.2))
-          = some (({ ka.2 with iidm := ((ka.2.iidm.removeIid i).map (·.1)).getD ka.2.iidm } : Accessory V P), r) := by
-      intro ka hka _
-      obtain ⟨m', r, e, _⟩ := Iid.removeIid_good (hs.accs ka hka).2.1 i
-      exact ⟨Res.ok r, by rw [e]; rfl⟩
-    have key := onAcc_good s s.nextObj s.nextObj aid
-      (fun a => (a.iidm.removeIid i).map (fun mr => ({ a with iidm := mr.1 }, Res.ok mr.2)))
-      (fun a => { a with iidm := ((a.iidm.removeIid i).map (·.1)).getD a.iidm }) hs (Nat.le_refl _) hf
+    rw [step_removeIid]
+    have hf : ∀ ka ∈ s.assoc, ka.1 = aid → ∃ r, fRemoveIid i ka.2 = some (FRemoveIid i ka.2, r) :=
+      fun ka hka _ => let ⟨r, e, _⟩ := fRemoveIid_eq i ka.2 (hs.accs ka hka).2.1; ⟨r, e⟩
+    have key := onAcc_good s s.nextObj s.nextObj aid (fRemoveIid i) (FRemoveIid i) hs (Nat.le_refl _) hf
       (fun ka hka _ => by
-        obtain ⟨a1, a2, a3, a4⟩ := hs.accs ka hka
-        obtain ⟨m', r, e, g, _⟩ := Iid.removeIid_good a2 i
-        refine ⟨⟨a1, ?_, a3, a4⟩, fun x hx => Or.inl hx⟩
-        show Iid.Good (((ka.2.iidm.removeIid i).map (·.1)).getD ka.2.iidm)
-        rw [e]; exact g)
-    have e := (onAcc_assoc s s.nextObj aid
-      (fun a => (a.iidm.removeIid i).map (fun mr => ({ a with iidm := mr.1 }, Res.ok mr.2)))
-      (fun a => { a with iidm := ((a.iidm.removeIid i).map (·.1)).getD a.iidm }) hs hf).2.2
+        obtain ⟨g, e⟩ := FRemoveIid_good i (hs.accs ka hka)
+        exact ⟨g, fun x hx => Or.inl (by rw [e] at hx; exact hx)⟩)
+    have e := (onAcc_assoc s s.nextObj aid (fRemoveIid i) (FRemoveIid i) hs hf).2.2
     unfold Db.Good
     rw [e]
     exact key
